@@ -120,6 +120,37 @@ def fresh(arities, V, fixed=None):
     return h
 
 
+def order_pairs(faces, V):
+    """the answer to a query does not depend on which other query was issued before it: every ordered pair of accessors on a
+    fresh mesh (closed fan with scrambled face numbering, so that set order and rotational order differ)"""
+    def h(sx):
+        i1, i2 = sx.choice("first_query", N_FIRST), sx.choice("second_query", N_FIRST)
+        mesh = _build(faces, V)
+        qs = _first_queries(mesh, faces)
+        n1, f1 = qs[i1]
+        n2, f2 = qs[i2]
+
+        def norm(x):
+            return list(x) if hasattr(x, "__iter__") and not isinstance(x, tuple) else x
+        try:
+            f1()
+            early = norm(f2())
+            for _, g in qs:
+                g()
+            late = norm(f2())
+        except Exception as e:
+            sx.check(False, "query %s fails after %s on a fresh mesh" % (n2, n1), detail=repr(e))
+            return
+        sx.check(early == late, "the answer of %s is the same whatever query was issued before it" % n2,
+                 detail="after %s only: %r; after every other query: %r" % (n1, early, late))
+        ref = _build(faces, V)
+        rq = dict(_first_queries(ref, faces))
+        for _, g in _first_queries(ref, faces)[::-1]:
+            g()
+        sx.check(norm(rq[n2]()) == late, "the answer of %s is the same on two meshes queried in different orders" % n2)
+    return h
+
+
 def relabelled_fixed(name):
     """a fixed larger topology under a symbolic relabelling (transposition composed with a rotation of every face)"""
     def h(sx):
@@ -176,6 +207,8 @@ def obligations(tier):
                       note="two triangles with an isolated vertex"))
         for nm in ("torus3x3", "annulus"):
             obs.append(Ob("fixed-" + nm, relabelled_fixed(nm), covers=COVERS, split=3, note=nm + " under symbolic relabelling"))
+    obs.append(Ob("order-pairs-fan4", order_pairs([(0, 1, 2), (0, 3, 4), (0, 2, 3), (0, 4, 1)], 5), covers=COVERS, split=2,
+                  note="every ordered pair of accessors on a fresh closed 4-fan with scrambled face numbering"))
     obs.append(Ob("fresh-3", fresh((3,), 3), covers=COVERS, split=3, note="each accessor as first query, single triangle"))
     if q:
         obs.append(Ob("fresh-33", fresh((3, 3), 4, fixed=[(0, 1, 2), (0, 2, 3)]), covers=COVERS,
